@@ -233,6 +233,22 @@ def _covered(k, W):
 
 
 def _codec_agreement(prog, chk, R5, maps):
+    by_col = codec_table(maps)
+    for (t, col), d in sorted(by_col.items()):
+        w = set(d.get('write', {}))
+        r = set(d.get('read', {}))
+        inst = '%s.%s' % (t, col)
+        sm0 = next(iter(next(iter((d.get('write') or d.get('read')).values()))))
+        if len(w | r) == 1 and None not in (w | r):
+            chk.ok(R5, '%s <-> %s' % (inst, next(iter(w | r))), sm0.loc)
+        else:
+            chk.violation(R5, '%s|codec' % inst, sm0.loc,
+                          'column %s is written through %s and read through %s: encoder and decoder of a '
+                          'column must belong to one codec class' % (inst, sorted(map(str, w)), sorted(map(str, r))))
+
+
+def codec_table(maps):
+    """{(table, column): {'write': {codec class: [site maps]}, 'read': {...}}}"""
     by_col = {}
     for sm in maps:
         t = (sm.stmt.table or '').lower()
@@ -251,21 +267,13 @@ def _codec_agreement(prog, chk, R5, maps):
                     continue
                 via = tgt[3] if tgt[0] == 'field' and len(tgt) > 3 else (tgt[2] if tgt[0] == 'assign' and len(tgt) > 2 else [])
                 dec = [v for v in via if v in ('decode', 'from_blob')]
-                if not dec:
+                cls = _codec_class_of_read(sm, col) if sm.site.sink is not None else None
+                if cls is None and getattr(sm, 'callnode', None) is not None:
+                    cls = _codec_class_of_enclosing(sm.caller, sm.callnode)
+                if not dec and cls is None:
                     continue
-                cls = _codec_class_of_read(sm, col)
                 by_col.setdefault((t, col.lower()), {}).setdefault('read', {}).setdefault(cls, []).append(sm)
-    for (t, col), d in sorted(by_col.items()):
-        w = set(d.get('write', {}))
-        r = set(d.get('read', {}))
-        inst = '%s.%s' % (t, col)
-        sm0 = next(iter(next(iter((d.get('write') or d.get('read')).values()))))
-        if len(w | r) == 1 and None not in (w | r):
-            chk.ok(R5, '%s <-> %s' % (inst, next(iter(w | r))), sm0.loc)
-        else:
-            chk.violation(R5, '%s|codec' % inst, sm0.loc,
-                          'column %s is written through %s and read through %s: encoder and decoder of a '
-                          'column must belong to one codec class' % (inst, sorted(map(str, w)), sorted(map(str, r))))
+    return by_col
 
 
 def _codec_class_of_write(sm, src):
@@ -295,6 +303,20 @@ def _codec_class_of_read(sm, col):
                 if idx and idx[0] < len(pnames) and pnames[idx[0]] in names:
                     # qualifier of the static call: type of the call expression
                     return program.norm_type_name(n.get('type') or '').split('::')[-1]
+    return None
+
+
+def _codec_class_of_enclosing(caller, callnode):
+    """X when the caller applies X::from_blob / X::decode to the result of the helper call."""
+    if caller is None or caller.body is None:
+        return None
+    cid = callnode.get('id')
+    for n in walk(caller.body):
+        if n.get('kind') == 'CallExpr':
+            callee = strip(children(n)[0])
+            nm = (callee.get('referencedDecl') or {}).get('name')
+            if nm in ('decode', 'from_blob') and any(x.get('id') == cid for a in children(n)[1:] for x in walk(a)):
+                return program.norm_type_name(n.get('type') or '').split('::')[-1]
     return None
 
 
